@@ -64,6 +64,19 @@ theorem lookup_setAssoc_ne {β} (m : List (Int × β)) (k j : Int) (v : β) (h :
       · have h2 : (j == a) = false := by simpa using ha
         simpa [List.filter_cons, hp, List.lookup_cons, h2] using ih
 
+/-- **what a load preserves and what it resets** (`LoadDatabase` and `LoadDatabaseString`, successful or not: both start with
+`UnLoadDatabase()` and save/restore the output, error and log file switches around the load): every switch, the four file
+names and the per-number selected-output file names are kept; the current user number returns to 1, the per-number file and
+string switches to their initial maps, the accumulated lines are cleared, the engine's SELECTED_OUTPUT blocks are forgotten -/
+theorem load_preserves_and_resets (i : Inst) (ok : Bool) :
+    (∀ s, (i.unload ok).getSw s = i.getSw s) ∧ (∀ n, (i.unload ok).getName n = i.getName n) ∧
+    (i.unload ok).selFileName = i.selFileName ∧ (i.unload ok).id = i.id ∧
+    (i.unload ok).cur = 1 ∧ (∀ k, ((i.unload ok).selFileOn.lookup k).getD false = false) ∧
+    (∀ k, ((i.unload ok).selStrOn.lookup k).getD false = false) ∧ (i.unload ok).acc = false ∧
+    (i.unload ok).engSel = [] ∧ (i.unload ok).loaded = ok := by
+  refine ⟨fun _ => rfl, fun _ => rfl, rfl, rfl, rfl, ?_, ?_, rfl, rfl, rfl⟩ <;>
+    (intro k; by_cases hk : k = 1 <;> simp [Inst.unload, List.lookup_cons, hk] <;> split <;> simp_all)
+
 /-- per-user-number selected-output switch: set then get under the same current number -/
 theorem setSelStrOn_get (i : Inst) (v : Bool) : (i.setSelStrOn v).getSelStrOn = v := by
   simp [Inst.setSelStrOn, Inst.getSelStrOn, lookup_setAssoc]
